@@ -355,6 +355,9 @@ impl<'a> Interpreter<'a> {
                     if let CelValue::Ident(ident) = index.as_value()? {
                         let obj = stack.pop()?.into_value()?;
                         match obj {
+                            // a member of something that failed to evaluate fails the same way;
+                            // it is neither an absent field nor a method to bind
+                            CelValue::Err(_) => stack.push_val(obj),
                             CelValue::Map(ref map) => match map.get(ident.as_str()) {
                                 Some(val) => stack.push_val(val.clone()),
                                 None => match self.callable_by_name(ident.as_str()) {
